@@ -36,6 +36,7 @@ import (
 	"sort"
 	"strings"
 	"sync"
+	"sync/atomic"
 	"time"
 
 	"github.com/apmckinlay/gsuneido/db19/index"
@@ -577,7 +578,9 @@ func addStatsB(c *lib.Ctx, sb *statsB) {
 	c.Count("B_writes_with_nothing_to_write", sb.nothingWritten)
 }
 
-func partB(c *lib.Ctx, nkeys, maxClock, maxDepth, maxStates int) {
+func partB(c *lib.Ctx, nkeys, maxClock, maxDepth, maxStates int, share time.Duration) {
+	dl := time.Now().Add(share)
+	var timeUp atomic.Bool
 	st := stor.HeapStor(64 * 1024)
 	st.Alloc(1)
 	root := &stateB{}
@@ -593,6 +596,10 @@ func partB(c *lib.Ctx, nkeys, maxClock, maxDepth, maxStates int) {
 		ok := c.Par(len(frontier), func(i int) {
 			var sb statsB
 			p := frontier[i]
+			if timeUp.Load() || i%64 == 0 && time.Now().After(dl) {
+				timeUp.Store(true)
+				return
+			}
 			for _, e := range enabledB(p, nkeys, maxClock) {
 				if c.Stopped() {
 					return
@@ -627,7 +634,10 @@ func partB(c *lib.Ctx, nkeys, maxClock, maxDepth, maxStates int) {
 		if !ok {
 			complete = false
 		}
-		if nstates > maxStates && len(frontier) > 0 {
+		if timeUp.Load() {
+			c.Cap("part B: its share of the time budget (%v) ended inside depth %d", share, depth)
+			complete = false
+		} else if nstates > maxStates && len(frontier) > 0 {
 			c.Cap("part B: stopped at %d states (cap %d) after depth %d", nstates, maxStates, depth)
 			complete = false
 		}
@@ -1064,7 +1074,9 @@ type failC struct {
 	Path []evC  `json:"path"`
 }
 
-func partC(c *lib.Ctx, maxClock, maxDepth, maxStates int) {
+func partC(c *lib.Ctx, maxClock, maxDepth, maxStates int, share time.Duration) {
+	dl := time.Now().Add(share)
+	var timeUp atomic.Bool
 	st := stor.HeapStor(64 * 1024)
 	st.Alloc(1)
 	root := &stateC{m: &meta.Meta{}}
@@ -1079,6 +1091,10 @@ func partC(c *lib.Ctx, maxClock, maxDepth, maxStates int) {
 		var next []*stateC
 		ok := c.Par(len(frontier), func(i int) {
 			p := frontier[i]
+			if timeUp.Load() || i%64 == 0 && time.Now().After(dl) {
+				timeUp.Store(true)
+				return
+			}
 			for _, e := range enabledC(p, maxClock) {
 				if c.Stopped() {
 					return
@@ -1111,7 +1127,10 @@ func partC(c *lib.Ctx, maxClock, maxDepth, maxStates int) {
 		if !ok {
 			complete = false
 		}
-		if nstates > maxStates && len(frontier) > 0 {
+		if timeUp.Load() {
+			c.Cap("part C: its share of the time budget (%v) ended inside depth %d", share, depth)
+			complete = false
+		} else if nstates > maxStates && len(frontier) > 0 {
 			c.Cap("part C: stopped at %d states (cap %d) after depth %d", nstates, maxStates, depth)
 			complete = false
 		}
@@ -1153,9 +1172,14 @@ func run(c *lib.Ctx) {
 	partA(c)
 	lap("part A")
 	walksB(c)
-	partB(c, lib.Pick(c, 2, 3), lib.Pick(c, 6, 10), lib.Pick(c, 13, 18), lib.Pick(c, 400_000, 4_000_000))
-	lap("part B")
-	partC(c, lib.Pick(c, 4, 6), lib.Pick(c, 13, 16), lib.Pick(c, 200_000, 2_000_000))
+	sec := func(q, t int) time.Duration { return time.Duration(lib.Pick(c, q, t)) * time.Second }
+	partB(c, 2, lib.Pick(c, 6, 10), lib.Pick(c, 13, 17), lib.Pick(c, 400_000, 3_000_000), sec(25, 150))
+	lap("part B (2 keys)")
+	if !c.Quick() {
+		partB(c, 3, 6, 14, 1_500_000, sec(0, 130))
+		lap("part B (3 keys)")
+	}
+	partC(c, lib.Pick(c, 4, 6), lib.Pick(c, 13, 16), lib.Pick(c, 200_000, 2_000_000), sec(25, 250))
 	lap("part C")
 }
 
